@@ -4,6 +4,7 @@ import (
 	"fmt"
 	"go/token"
 	"go/types"
+	"strings"
 
 	"golang.org/x/tools/go/ssa"
 )
@@ -23,6 +24,13 @@ func (e *Exec) step(st *State, in ssa.Instruction, b *ssa.BasicBlock, idx int) b
 				} else if _, isAlloc := x.X.(*ssa.Alloc); isAlloc {
 					fr.varAddr[n] = e.derefLoc(st, v, x.X.Type().(*types.Pointer).Elem())
 				}
+			} else if sv := singleValueOf(x); sv != nil {
+				if fr.lazy == nil {
+					fr.lazy = map[string]ssa.Value{}
+				}
+				fr.lazy[n] = sv
+				delete(fr.vars, n)
+				delete(fr.varAddr, n)
 			} else {
 				fr.vars[n] = v
 				delete(fr.varAddr, n)
@@ -183,6 +191,20 @@ func (e *Exec) allocRef(st *State, hint string) string {
 	e.ctr++
 	r := e.declare(sym(fmt.Sprintf("new:%s!%d", hint, e.ctr)), SInt)
 	st.assume(tEq(r, app("+", "BASE", intLit(int64(k)))))
+	// every reference currently stored as a map value predates this allocation
+	for _, key := range sortedKeys(st.heap) {
+		if !strings.HasPrefix(key, "M:") || !strings.Contains(key, "#val") || strings.Contains(key, "#val#") || strings.Contains(key, "#val.") {
+			continue
+		}
+		srt, ok := e.decls[st.heap[key]]
+		if !ok || !strings.HasSuffix(srt, " Int))") {
+			continue
+		}
+		ks := strings.TrimSuffix(strings.TrimPrefix(srt, "(Array Int (Array "), " Int))")
+		m, kk := e.freshName("m"), e.freshName("k")
+		a := st.heap[key]
+		st.assume(fmt.Sprintf("(forall ((%s Int) (%s %s)) (! (< (select (select %s %s) %s) %s) :pattern ((select (select %s %s) %s))))", m, kk, ks, a, m, kk, r, a, m, kk))
+	}
 	st.fresh = append(st.fresh, r)
 	return r
 }
